@@ -144,6 +144,9 @@ def leanchecker(module):
 
 # ---------------------------------------------------------------- correspondence
 
+STATS = {}
+
+
 def run_corr(domain, n, seed, tier, corr_bin=None, extra_env=None, stdin_ops=None, timeout=7200):
     """returns list of (opline, impl_result). domain 'run' executes stdin_ops."""
     corr_bin = corr_bin or os.path.join(BIN, "corr")
@@ -154,7 +157,13 @@ def run_corr(domain, n, seed, tier, corr_bin=None, extra_env=None, stdin_ops=Non
     p = subprocess.run(cmd, cwd=BUILD, env=env, input=stdin_ops, stdout=subprocess.PIPE,
                        stderr=subprocess.PIPE, text=True, timeout=timeout)
     out = []
+    STATS.clear()
     for line in p.stdout.splitlines():
+        if line.startswith("#stat "):
+            parts = line.split()
+            # "#stat name value [key value]..."
+            STATS[parts[1]] = dict(value=int(parts[2]), **{parts[i]: int(parts[i + 1]) for i in range(3, len(parts) - 1, 2)})
+            continue
         if "\t" not in line:
             continue
         op, res = line.split("\t", 1)
